@@ -50,7 +50,7 @@ Focus(sh, p) == LET f == FieldAt(sh, p)  lo == CellsBefore(sh, p) + 1 IN
   IF IsLeaf(f) \/ f.emb = "ptr" THEN <<lo, lo>> ELSE <<lo, lo + CellCount(f.sub) - 1>>
 
 (* ------------------------------------------------------------------ requests *)
-\* a request: [by |-> "name" | "type", cont |-> "T" | "*T", names |-> seq, types |-> seq]; N = Len(types)
+\* a request: [by |-> "name" | "type" | "entry", cont |-> "T" | "*T", names |-> seq, types |-> seq, ent, close]; N = Len(types)
 Arity(rq) == Len(rq.types)
 
 (* ---- I: derivation as coded *)
@@ -59,6 +59,7 @@ Anchored(l, e) == \E j \in 1..Len(l) : l[j].byval /\ l[j].name = e.name /\ l[j].
 Derive(sh, u, l, rq, guarded) ==      \* u = Unfold(sh); l = Listing(sh) is used by the repaired check only
   LET n == Arity(rq)
       ix == IF rq.by = "type" THEN NewByTypes(u, rq.types)
+            ELSE IF rq.by = "entry" THEN <<rq.ent>>                    \* NewLens / NewReflector on hseq.New[T]()[ent - 1]
             ELSE IF Len(rq.names) < n THEN <<0>>                     \* attr[0:n]: slice bounds out of range
             ELSE NewByNames(u, SubSeq(rq.names, 1, n))
       bad(i) == \/ u[ix[i]].ty # rq.types[i]                          \* NewLens: invalid type
@@ -73,6 +74,7 @@ Derive(sh, u, l, rq, guarded) ==      \* u = Unfold(sh); l = Listing(sh) is used
 WantIx(l, rq) ==
   LET n == Arity(rq) IN
   IF rq.by = "type" THEN [i \in 1..n |-> FirstType(l, rq.types[i])]
+  ELSE IF rq.by = "entry" THEN <<rq.ent>>
   ELSE IF Len(rq.names) < n THEN <<0>>
   ELSE [i \in 1..n |-> FirstKey(l, rq.names[i])]
 \* l = Listing(sh).  out: "panic" | "lens" | "ptr"; ents: the listing positions of the first matches
@@ -126,7 +128,14 @@ Requests(sh, l) ==
   LET keys == SetToSeq(KeysOf(l))
       types == SetToSeq(TypesOf(l))
       tyOf(k) == l[FirstKey(l, k)].ty
-      R(by, cont, ns, ts) == [by |-> by, cont |-> cont, names |-> ns, types |-> ts]
+      R(by, cont, ns, ts) == [by |-> by, cont |-> cont, names |-> ns, types |-> ts, ent |-> 0, close |-> FALSE]
+      \* requests with a type that is structurally close to the field's but not identical (CloseTypes): by name, by
+      \* type (absent close types must fail, present ones are ordinary requests), and NewLens / NewReflector handed
+      \* a hand-picked entry of the listing (by = "entry": once with the entry's own type, once with a close one)
+      closeN == SetToSeq({[R("name", "T", <<k>>, <<c>>) EXCEPT !.close = TRUE] : <<k, c>> \in {<<k, c>> \in KeysOf(l) \X CloseAll(TypesOf(l)) : c \in CloseTypes(tyOf(k))}})
+      closeT == SetToSeq({[R("type", "T", <<>>, <<c>>) EXCEPT !.close = TRUE] : c \in CloseAll(TypesOf(l))})
+      closeE == SetToSeq({[R("entry", "T", <<>>, <<c>>) EXCEPT !.close = TRUE, !.ent = j] :
+                            <<j, c>> \in {<<j, c>> \in (1..Len(l)) \X (CloseAll(TypesOf(l)) \cup TypesOf(l)) : l[j].byval /\ CloseTypes(l[j].ty) # {} /\ (c = l[j].ty \/ c \in CloseTypes(l[j].ty))}})
       single == [i \in 1..Len(keys) |-> R("name", "T", <<keys[i]>>, <<tyOf(keys[i])>>)]
       wrong == [i \in 1..Len(keys) |-> R("name", "T", <<keys[i]>>, <<Mismatch(sh, l[FirstKey(l, keys[i])])>>)]
       bytype == [i \in 1..Len(types) |-> R("type", "T", <<>>, <<types[i]>>)]
@@ -141,6 +150,7 @@ Requests(sh, l) ==
            R("name", "T", <<keys[1], "zz">>, <<tyOf(keys[1]), "int8">>), R("type", "T", <<>>, <<types[1], "uintptr">>),
            R("name", "*T", <<keys[1]>>, <<tyOf(keys[1])>>), R("type", "*T", <<>>, <<types[1]>>),
            R("name", "*T", <<"zz">>, <<"int8">>) >>
+     \o closeN \o closeT \o closeE
 
 (* ------------------------------------------------------------------ abstract memory *)
 Guard == 8
